@@ -295,11 +295,11 @@ def _columns(st, K=None, default_schema=None):
                 pairs.add((s, f"{tgt}.{n}"))
         return pairs
     if k == "update":
-        if st["from"]:
-            scope = [_rel(r, {}, K, ds) for r in st["from"]["rels"]]
-            for c, e in st["set"]:
-                for s in _expr_sources(e, scope, {}, K, ds):
-                    pairs.add((s, f"{tgt}.{c}"))
+        # the updated table itself is in scope; with a FROM clause its relations are too
+        scope = [_rel(r, {}, K, ds) for r in st["from"]["rels"]] if st["from"] else [Rel("base", {st["target"]["n"], tgt}, tgt, None, tgt)]
+        for c, e in st["set"]:
+            for s in _expr_sources(e, scope, {}, K, ds):
+                pairs.add((s, f"{tgt}.{c}"))
         return pairs
     if k == "merge":
         u = _rel(st["using"], {}, K, ds)
